@@ -1,5 +1,8 @@
 use std::cell::UnsafeCell;
 use std::ptr;
+#[cfg(may_verif)]
+use crate::verif::atomic::{AtomicPtr, Ordering};
+#[cfg(not(may_verif))]
 use std::sync::atomic::{AtomicPtr, Ordering};
 
 use crossbeam_utils::{Backoff, CachePadded};
@@ -171,6 +174,8 @@ impl<T> Queue<T> {
             let prev = self.head.swap(node, Ordering::AcqRel);
             (*node).prev = prev;
             (*prev).next.store(node, Ordering::Release);
+            #[cfg(may_verif)]
+            crate::verif::point("tail.read", self.tail.get() as usize, 0);
             let tail = *self.tail.get();
             let is_head = std::ptr::eq(tail, prev);
             (Entry(ptr::NonNull::new_unchecked(node)), is_head)
@@ -250,6 +255,8 @@ impl<T> Queue<T> {
             // clear the prev pointer indicate a new end point
             (*next).prev = ptr::null_mut();
             // move the tail to next
+            #[cfg(may_verif)]
+            crate::verif::point("tail.write", self.tail.get() as usize, next as usize as u64);
             *self.tail.get() = next;
 
             // we take the next value, this is why use option to host the value
@@ -290,6 +297,8 @@ impl<T> Queue<T> {
             }
             (*next).prev = ptr::null_mut();
             // move the tail to next
+            #[cfg(may_verif)]
+            crate::verif::point("tail.write", self.tail.get() as usize, next as usize as u64);
             *self.tail.get() = next;
 
             assert!((*tail).value.is_none());
